@@ -41,6 +41,10 @@ use super::config::SslConfig;
 use super::template;
 
 pub async fn startup(config: &ServerConfig<SslConfig>) -> anyhow::Result<()> {
+    // checked before anything is started: the TCP half of tcp_and_quic would otherwise serve forever and hide the error
+    if config.mode.enable_quic() && config.quic.is_none() {
+        bail!("mode {} requires a quic section", config.mode);
+    }
     let res = match config.cipher {
         CipherKind::Aes128Gcm | CipherKind::Aead2022Blake3Aes128Gcm => {
             let mut user_manager: ServerUserManager<16> = ServerUserManager::new();
@@ -162,9 +166,6 @@ async fn startup_udp<const N: usize>(config: &ServerConfig<SslConfig>, user_mana
         info!("Udp server shutdown");
         Ok(())
     } else {
-        if config.quic.is_none() {
-            bail!("mode {} requires a quic section", config.mode);
-        }
         let context: ServerContext<N> = ServerContext::init(config, user_manager.clone())?;
         super::startup_quic(context, config, |c| Ok(PayloadCodec::from(c))).await
     }
